@@ -40,7 +40,10 @@ static void run_dcase(long idx)
     if (!refdec_decode(out, n, f, fs, NULL, &I, 0) || I.nb_frames != 1) { v_viol("setup:R-rejects-compressor-output", "%s", desc); refdec_info_free(&I); goto out; }
     refdec_frame_t const F = I.frames[0];
     v_stat("frames", 1); v_cell("shape", "fcs%d|ss%d|cks%d|ml%d|lastblk%d", F.fcs_bytes, F.single_segment, F.has_checksum, P.magicless, I.nb_blocks ? I.blocks[I.nb_blocks - 1].type : 9);
+    int const ignoreCk = vr_chance(&r, 1, 3);      /* decoder told to ignore checksums: the frame still ends after its 4 checksum bytes */
+    if (ignoreCk) v_stat("frames_decoded_with_forceIgnoreChecksum", 1);
     #define SETUP_D() do { ZSTD_DCtx_reset(d, ZSTD_reset_session_and_parameters); ZSTD_DCtx_setParameter(d, ZSTD_d_windowLogMax, 30); if (P.magicless) ZSTD_DCtx_setParameter(d, ZSTD_d_format, ZSTD_f_zstd1_magicless); } while (0)
+    #define SETUP_DC() do { SETUP_D(); if (ignoreCk) ZSTD_DCtx_setParameter(d, ZSTD_d_forceIgnoreChecksum, ZSTD_d_ignoreChecksum); } while (0)      /* for the truncation oracles only */
     /* ---- cuts */
     {   size_t cuts[400]; int nc = 0;
         if (fs <= 600) { for (size_t k = 1; k < fs && nc < 390; k++) cuts[nc++] = k; }
@@ -53,12 +56,12 @@ static void run_dcase(long idx)
         for (int q = 0; q < nc; q++) {
             size_t const k = cuts[q]; gbuf t = gb_alloc(k, 0); memcpy(t.p, f, k);      /* exact-size: reading past the cut faults */
             const char* where = k < (P.magicless ? 0u : 4u) ? "in-magic" : k < F.header_size ? "in-frame-header" : (F.has_checksum && k >= fs - 4) ? "in-checksum" : "in-blocks";
-            SETUP_D(); size_t const one = ZSTD_decompressDCtx(d, out, n + 32, t.p, k);
+            SETUP_DC(); size_t const one = ZSTD_decompressDCtx(d, out, n + 32, t.p, k);
             if (!ZSTD_isError(one)) v_viol("truncation:one-shot-decode-accepts-a-proper-prefix", "%s cut=%zu (%s) returned %zu", desc, k, where, one);
-            SETUP_D(); size_t prod = 0; if (stream_reports_complete(d, t.p, k, n + 32, out, 1 + vr_u64(&r, k), &prod)) v_viol("truncation:streaming-decode-reports-completion-on-a-proper-prefix", "%s cut=%zu (%s)", desc, k, where);
+            SETUP_DC(); size_t prod = 0; if (stream_reports_complete(d, t.p, k, n + 32, out, 1 + vr_u64(&r, k), &prod)) v_viol("truncation:streaming-decode-reports-completion-on-a-proper-prefix", "%s cut=%zu (%s)", desc, k, where);
             if (!P.magicless) { size_t const fc = ZSTD_findFrameCompressedSize(t.p, k); if (!ZSTD_isError(fc)) v_viol("truncation:findFrameCompressedSize-accepts-a-proper-prefix", "%s cut=%zu -> %zu", desc, k, fc); }
             if (!P.magicless && (q % 4) == 0) {  /* buffer-less: must not reach "frame complete" on a prefix */
-                SETUP_D(); ZSTD_decompressBegin(d); size_t ip = 0, op = 0; int complete = 0; long guard = 0;
+                SETUP_DC(); ZSTD_decompressBegin(d); size_t ip = 0, op = 0; int complete = 0; long guard = 0;
                 while (1) { size_t const need = ZSTD_nextSrcSizeToDecompress(d); if (need == 0) { complete = 1; break; } if (need > k - ip) break; size_t const rr = ZSTD_decompressContinue(d, out + op, n + 32 - op, t.p + ip, need); if (ZSTD_isError(rr)) break; ip += need; op += rr; if (++guard > 1000000) break; }
                 if (complete) v_viol("truncation:bufferless-decode-reports-completion-on-a-proper-prefix", "%s cut=%zu", desc, k);
             }
